@@ -15,6 +15,10 @@ func c10ObsInto(t *Ty, data []byte, prev *Val) string {
 		dst := newFlat(t)
 		if prev != nil {
 			dst = flatOf(t, prev)
+			// ... which has itself been decoded into before (objects are decoded into repeatedly)
+			if pe, err := flatEncode(dst); err == nil {
+				_ = flatDecode(dst, pe)
+			}
 		}
 		if err := flatDecode(dst, data); err != nil {
 			return "res=ERR reenc=-"
